@@ -27,12 +27,14 @@ HARNESS_BIN = 'c10'
 RUN_MODULE = 'Run.C10'
 THEOREMS = ['C10_reader_sees_whole', 'C10_open_fd_keeps_old', 'C10_inode_content_never_changes',
             'C10_no_partial_on_failure', 'C10_crash_anywhere_finals_whole', 'C10_success_installs_new',
-            'C10_outputs_change_only_by_rename', 'C10_mode_window']
+            'C10_outputs_change_only_by_rename', 'C10_special_output_never_replaced', 'C10_mode_window']
 ASSUMPTIONS = [
     'kernel (Model/FsModel.v): rename(2) is one atomic directory switch that leaves the replaced inode untouched; an open '
     'descriptor pins its inode; open(O_CREAT|O_EXCL) never reuses an existing name; write(2) through a descriptor changes '
     'only that inode.  These are the POSIX guarantees the code relies on; they are assumed, the strace leg only validates '
     'that the real code uses exactly these calls',
+    'an output that is a device node (-o /dev/null) is modelled as a sink: the code writes into it, nothing is there to be '
+    'read or lost; the legs use a private mknod copy of the null device (the harness runs as root), never /dev/null itself',
     'no output file is itself named like a temp file (name starting with ".tmp", tempfile\'s prefix): hypothesis outputs_okb',
     'nobody but the one extraction writes into the output directories during the request (observers only open and read); '
     'two concurrent extractions onto the same path are outside the statement',
@@ -81,6 +83,10 @@ def gen_outs(rng, big=False):
             shape = rng.weighted([(b'plain', 11), (b'hardlink', 5), (b'symlink', 3), (b'dir700', 2)])
             if shape != b'plain':
                 old = old + [shape]
+        if rng.chance(1, 10):
+            # the output path is a device node (`-o /dev/null`; here a private mknod copy of the null device):
+            # the member is written INTO it, the node is never replaced
+            old = b'special'
         outs.append([d, names[i], size, rng.choice(MODES), 1 if rng.chance(1, 5) else 0, old, b'none'])
     kind = rng.weighted([('none', 8), ('corrupt', 9), ('no_dir', 1), ('old_dir', 1)])
     if kind == 'corrupt':
@@ -145,6 +151,10 @@ def check_finals(outs, result, fin, left, alias=None):
     for o, f in zip(outs, fin):
         p, cls, mode = f
         had_old = o[5] != []
+        if o[5] == b'special':
+            if cls != b'special':
+                vs.append('output %s was a device node and has been replaced or removed (%s)' % (p.decode(), cls.decode()))
+            continue
         if cls == b'other':
             vs.append('output %s holds neither the complete previous nor the complete new contents' % p.decode())
         elif cls == b'absent' and had_old:
@@ -166,6 +176,7 @@ def monitor_strace(case, out):
     _OBS.append((case, out))
     vs = []
     paths = set(o[0] + b'/' + o[1] for o in outs)
+    special = set(o[0] + b'/' + o[1] for o in outs if o[5] == b'special')
     live = {}
     for e in canon:
         h = e[0]
@@ -175,9 +186,15 @@ def monitor_strace(case, out):
             # harness emits this form only for: source = a live temp file, target = an output, same directory
             if e[1] not in live or e[2] not in paths or live[e[1]] != e[2].rsplit(b'/', 1)[0]:
                 vs.append('rename onto %s not from a temp file in the same directory' % e[2].decode())
+            if e[2] in special:
+                vs.append('a file was renamed over the device node %s' % e[2].decode())
             live.pop(e[1], None)
         elif h == b'unlink_tmp':
             live.pop(e[1], None)
+        elif h == b'open_special':
+            # opening the output for writing is the allowed event for a device node, and for nothing else
+            if e[1] not in special:
+                vs.append('output path %s opened for writing' % e[1].decode())
         elif h == b'chmod':
             if e[1] not in paths:
                 vs.append('chmod of a path that is not an output: %r' % (e,))
@@ -220,7 +237,7 @@ def stats_strace(case, out):
     ks = ['outputs=%d' % len(case[1])]
     for o in case[1]:
         ks.append('fault=' + o[6].decode())
-        ks.append('old=' + ('none' if o[5] == [] else 'dir' if o[5] == b'dir' else 'file'))
+        ks.append('old=' + ('none' if o[5] == [] else 'dir' if o[5] == b'dir' else 'special' if o[5] == b'special' else 'file'))
         if isinstance(o[5], list) and len(o[5]) == 3:
             ks.append('old_shape=' + o[5][2].decode())
         if isinstance(o[5], list) and len(o[5]) >= 2:
@@ -281,6 +298,8 @@ def shrink(case):
             yield [case[0], outs[:i] + [o[:5] + [o[5][:2]] + o[6:]] + outs[i + 1:]] + rest
         if o[5] != [] and o[5] != b'dir':
             yield [case[0], outs[:i] + [o[:5] + [[]] + o[6:]] + outs[i + 1:]] + rest
+        if o[5] == b'special':
+            yield [case[0], outs[:i] + [o[:5] + [[100, 0o644]] + o[6:]] + outs[i + 1:]] + rest
         if o[2] > 100:
             yield [case[0], outs[:i] + [o[:2] + [100] + o[3:]] + outs[i + 1:]] + rest
         if o[4]:
@@ -295,7 +314,7 @@ def neighbours(case):
     for i, o in enumerate(outs):
         for f in FAULTS + [b'none']:
             for opt in (0, 1):
-                for old in ([], [777, 0o644], [777, 0o644, b'hardlink'], [777, 0o444, b'symlink']):
+                for old in ([], [777, 0o644], [777, 0o644, b'hardlink'], [777, 0o444, b'symlink'], b'special'):
                     yield [case[0], outs[:i] + [o[:4] + [opt, old, f]] + outs[i + 1:]] + rest
 
 
@@ -334,7 +353,7 @@ def _legs(tier):
         Leg('strace', gen_strace, monitor=monitor_strace, nontrivial=nontrivial, shrink=shrink, neighbours=neighbours,
             stats=stats_strace, compare=compare_drop(5),
             rule='PRNG cases of 1-4 outputs in 1-2 directories, sizes 0..300000 around the 8 KiB copy buffer, 4 modes, '
-                 'optional members (absent: skipped; stored but unreadable: the extraction fails), old file present/absent/a directory/with a second hard link/a symlink to a file elsewhere/in a 0700 directory/read-only/empty/smaller/larger, missing output directory, one (sometimes two) '
+                 'optional members (absent: skipped; stored but unreadable: the extraction fails), old file present/absent/a directory/with a second hard link/a symlink to a file elsewhere/in a 0700 directory/read-only/empty/smaller/larger/a device node (written into, never replaced), missing output directory, one (sometimes two) '
                  'damaged members (missing / first, middle, last byte of the stored zstd stream flipped) at the 2nd, last '
                  'or a random position; non-trivial = an existing file is replaced or a member fails; distinct by case text'),
         Leg('live', gen_live, monitor=monitor_live, nontrivial=nontrivial, shrink=shrink,
